@@ -40,6 +40,9 @@ struct fetchst {
 	int extra;       /* paths outside the universe reported (filler elements of a seeded state) */
 };
 static struct fetchst fe[NSLOT];
+/* subscriber S may stop reading: once the daemon's write buffer for it is full (96 bytes in the tiny build) notifications for
+ * it are refused; that harms only S - every other replica, every verdict's effect and the daemon's own view stay exact */
+static bool stalled_s;
 static long counter = 100;
 static int reqid;
 static const char *last_action = "";
@@ -215,7 +218,7 @@ static void observe(struct pending *pd)
 static void check_replicas(void)
 {
 	for (int s = 0; s < NSLOT; s++) {
-		if (conn[s] < 0 || !fe[s].active) {
+		if (conn[s] < 0 || !fe[s].active || (s == S && stalled_s)) {
 			continue;
 		}
 		for (int i = 0; i < NPATH; i++) {
@@ -273,7 +276,7 @@ static void check_get(void)
 }
 
 /* ---- actions ---- */
-enum akind { A_ADD, A_ADDM, A_REMOVE, A_CHANGE, A_FETCH, A_UNFETCH, A_DISC, A_CONN };
+enum akind { A_ADD, A_ADDM, A_REMOVE, A_CHANGE, A_FETCH, A_UNFETCH, A_DISC, A_CONN, A_STALL };
 struct action {
 	char name[40];
 	int kind, slot, arg;
@@ -313,6 +316,8 @@ static void build_actions(void)
 		acts[nacts] = (struct action){.kind = A_UNFETCH, .slot = s};
 		snprintf(acts[nacts++].name, sizeof(acts[0].name), "%s:unfetch", SLN[s]);
 	}
+	acts[nacts] = (struct action){.kind = A_STALL, .slot = S};
+	snprintf(acts[nacts++].name, sizeof(acts[0].name), "S:stops-reading");
 	for (int s = 0; s < NSLOT; s++) {
 		acts[nacts] = (struct action){.kind = A_DISC, .slot = s};
 		snprintf(acts[nacts++].name, sizeof(acts[0].name), "disconnect(%s)", SLN[s]);
@@ -321,10 +326,17 @@ static void build_actions(void)
 	}
 }
 
+
 static bool enabled(const struct action *a)
 {
 	if (a->kind == A_CONN) {
 		return conn[a->slot] < 0;
+	}
+	if (a->kind == A_STALL) {
+		return xp_param("stall", 0) != 0 && conn[S] >= 0 && !stalled_s;
+	}
+	if (a->slot == S && stalled_s && a->kind != A_DISC) {
+		return false; /* its answers could not be observed */
 	}
 	return conn[a->slot] >= 0;
 }
@@ -415,8 +427,12 @@ static void apply(const struct action *a)
 		send_request(s, req, 1);
 		jx_settle();
 		observe(&pd);
-		if (!pd.got || pd.success != ok) {
+		bool delivery_error = ok && pd.got && !pd.success && pd.errcode == -32603 && stalled_s; /* "could not notify": the change took effect, one subscriber could not be told */
+		if (!pd.got || (pd.success != ok && !delivery_error)) {
 			fail1("change-wrong-verdict", "change('%s') by %s should %s but %s", PATHS[p], SLN[s], ok ? "succeed" : "fail", pd.got ? (pd.success ? "succeeded" : "failed") : "was not answered");
+		}
+		if (delivery_error) {
+			xp_count("changes_answered_with_delivery_error", 1);
 		}
 		if (ok) {
 			model[p].value = v;
@@ -452,10 +468,17 @@ static void apply(const struct action *a)
 		}
 		break;
 	}
+	case A_STALL:
+		sim_set_window(conn[S], 0);
+		stalled_s = true;
+		break;
 	case A_DISC:
 		sim_client_fin(conn[s]);
 		jx_settle();
 		conn[s] = -1;
+		if (s == S) {
+			stalled_s = false;
+		}
 		memset(&fe[s], 0, sizeof(fe[s]));
 		for (int p = 0; p < NPATH; p++) {
 			if (model[p].exists && model[p].owner == s) {
@@ -503,7 +526,7 @@ static uint64_t model_hash(int remaining)
 {
 	uint64_t h = (uint64_t)remaining + 17;
 	for (int s = 0; s < NSLOT; s++) {
-		h = hash_mix(h, (uint64_t)(conn[s] >= 0) + 2 * (uint64_t)fe[s].active + 4 * (uint64_t)fe[s].rule + 16 * (uint64_t)fe[s].ended);
+		h = hash_mix(h, (uint64_t)(conn[s] >= 0) + 2 * (uint64_t)fe[s].active + 4 * (uint64_t)fe[s].rule + 16 * (uint64_t)fe[s].ended + 32 * (uint64_t)(s == S && stalled_s));
 	}
 	/* values only matter through equality with replicas, which the oracle has just established: rank them */
 	for (int i = 0; i < NPATH; i++) {
@@ -564,6 +587,26 @@ static void run(void)
 				if (acts[i].kind == A_FETCH && acts[i].slot == who && acts[i].arg == R_ALL) {
 					apply(&acts[i]);
 				}
+			}
+		}
+	} else if (seedstate == 6) {
+		/* one owner holds 'a' (in access-control mode invisible to S) and then 'ab' (visible): nobody has subscribed yet */
+		apply(&acts[0]); /* P:add(a) */
+		apply(&acts[1]); /* P:add(ab) */
+	} else if (seedstate == 7) {
+		/* two elements, two subscribers, and S has stopped reading */
+		apply(&acts[0]); /* P:add(a) */
+		apply(&acts[4]); /* Q:add(ab) */
+		for (int who = S; who >= Q; who--) {
+			for (int i = 0; i < nacts; i++) {
+				if (acts[i].kind == A_FETCH && acts[i].slot == who && acts[i].arg == R_ALL) {
+					apply(&acts[i]);
+				}
+			}
+		}
+		for (int i = 0; i < nacts; i++) {
+			if (acts[i].kind == A_STALL) {
+				apply(&acts[i]);
 			}
 		}
 	} else if (seedstate == 2) {
